@@ -109,17 +109,22 @@ REGISTRY["C05"] = {
                    "variants (single task, task chain, branch that may end through an exclusive gateway before the join, empty branch; block repeated) x "
                    "three deterministic completion orders; plus rapid-drawn bodies, listing orders, completion orders, both languages. Lock-step against "
                    "the token game whose join fires when every token of the fork has arrived or ended (the latest moment the property allows) and accepts "
-                   "an earlier firing from the moment the BPMN rule enables it; fork error case (no true condition, no default) expects the error trace and no token."),
+                   "an earlier firing from the moment the BPMN rule enables it; fork error case (no true condition, no default) expects the error trace and no token. "
+                   "TestC05Funnel: 2..4 tokens from separate start events reach ONE inclusive gateway one after another, each seeing different values of the variable its "
+                   "conditions read (several branches / one / default only / no flow at all with an error trace), in any order: an activation must not depend on the previous ones. "
+                   "Every lock-step run also compares the multiset of gateway / task error traces with the model's."),
     "level_note": LOCKSTEP_TRUST + " The asynchronous catch-up of the join's tracker is exercised only through GOMAXPROCS variation and natural scheduling.",
     "technique": "bounded-exhaustive table + rapid property test, lock-step differential against a token-game model with an allowed firing window for the join",
     "rule": ("task -> inclusive fork -> branches -> inclusive join -> task (block possibly twice). Distinct = descriptor incl. answer order. Non-trivial = >=2 branches "
              "activated with >=2 requests pending at once, or an activated branch that ends before the join, or an unactivated branch present. TestC05Nested keeps the "
-             "pattern of known finding C05-F1 (inclusive gateways nested with other forks) in the domain and attributes a failure to it only on a matching symptom."),
+             "pattern of known finding C05-F1 (inclusive gateways nested with other forks) in the domain and attributes a failure to it only on a matching symptom. "
+             "TestC05Funnel: non-trivial = the activations of the gateway are of at least two different kinds."),
     "assumptions": ["inclusive gateways are not nested with other forks in the main campaign (finding C05-F1, constructed around)"],
     "tests": [
         {"name": "TestC05Table", "mode": "plain", "shards": {"quick": 1, "thorough": 1}},
         {"name": "TestC05Random", "checks": {"quick": 200, "thorough": 5000}, "shards": {"quick": 8, "thorough": 16}, "gomaxprocs": [4, 1, 2, 16]},
         {"name": "TestC05Nested", "env": {"VERIF_UNRESTRICTED": "1"}, "checks": {"quick": 60, "thorough": 1000}, "shards": {"quick": 4, "thorough": 8}},
+        {"name": "TestC05Funnel", "checks": {"quick": 100, "thorough": 2500}, "shards": {"quick": 4, "thorough": 16}, "gomaxprocs": [4, 1, 2, 16]},
     ],
 }
 
